@@ -29,6 +29,7 @@ from pyvc.tensor import DTYPES, LinComb, Run, Shape, SymTensor
 
 from .common import any_real, dim, frame_obligations, grad_for, grads_of, leaf, mk_interp, opaque, pos_real
 from .registry import Job, register
+from .refs import REFS
 from .summaries import UF, spec_rule
 
 BINARY = [None, "", "gmean", "hmean", "amean", "to_output_scale", "to_grad_input_scale"]
@@ -46,6 +47,13 @@ class OpSpec:
     k_is_one = False
     constraints: Optional[List[Any]] = None
     out_param: Optional[str] = None
+
+    def __init__(self) -> None:
+        r = REFS[self.name]
+        self.ref = r["ref"]
+        self.ref_grad = r.get("ref_grad")
+        self.diff = r["diff"]
+        self.constrained = r["constrained"]
 
     def configs(self) -> List[Dict[str, Any]]:
         return [{}]
@@ -215,9 +223,6 @@ def _with_constraints(base: List[Dict[str, Any]], cons: List[Any]) -> List[Dict[
 
 class Gelu(OpSpec):
     name = "gelu"
-    ref = "F.gelu(input * mult, approximate=approximate) / mult"
-    diff = ["input"]
-    constrained = ["input"]
     constraints = BINARY
 
     def configs(self) -> List[Dict[str, Any]]:
@@ -229,9 +234,6 @@ class Gelu(OpSpec):
 
 class Silu(OpSpec):
     name = "silu"
-    ref = "F.silu(input * mult) / mult"
-    diff = ["input"]
-    constrained = ["input"]
     constraints = BINARY
 
     def configs(self) -> List[Dict[str, Any]]:
@@ -243,9 +245,6 @@ class Silu(OpSpec):
 
 class SiluGlu(OpSpec):
     name = "silu_glu"
-    ref = "input * (F.silu(gate * mult) / mult)"
-    diff = ["input", "gate"]
-    constrained = ["input", "gate"]
     fixed_constraint = True
 
     def make(self, ctx: Ctx, cfg: Dict[str, Any]) -> Any:
@@ -255,9 +254,6 @@ class SiluGlu(OpSpec):
 
 class Softmax(OpSpec):
     name = "softmax"
-    ref = "F.softmax(input * mult, dim=dim, dtype=dtype)"
-    diff = ["input"]
-    constrained = ["input"]
     constraints = BINARY
 
     def configs(self) -> List[Dict[str, Any]]:
@@ -278,9 +274,6 @@ class Softmax(OpSpec):
 
 class Dropout(OpSpec):
     name = "dropout"
-    ref = "F.dropout(input, p, training)"
-    diff = ["input"]
-    constrained = ["input"]
     fixed_constraint = True
 
     def make(self, ctx: Ctx, cfg: Dict[str, Any]) -> Any:
@@ -296,9 +289,6 @@ class Dropout(OpSpec):
 
 class Matmul(OpSpec):
     name = "matmul"
-    ref = "torch.matmul(left, right)"
-    diff = ["left", "right"]
-    constrained = ["left", "right"]
     constraints = TERNARY
 
     def configs(self) -> List[Dict[str, Any]]:
@@ -326,9 +316,6 @@ def _linear_args(ctx: Ctx, cfg: Dict[str, Any]) -> Any:
 
 class Linear(OpSpec):
     name = "linear"
-    ref = "F.linear(input, weight, bias)"
-    diff = ["input", "weight", "bias"]
-    constrained = ["input"]
     constraints = BINARY
 
     def configs(self) -> List[Dict[str, Any]]:
@@ -350,9 +337,6 @@ class Linear(OpSpec):
 
 class LinearReadout(OpSpec):
     name = "linear_readout"
-    ref = "F.linear(input, weight, bias)"
-    diff = ["input", "weight", "bias"]
-    constrained = ["input"]
     constraints = BINARY
 
     def configs(self) -> List[Dict[str, Any]]:
@@ -372,9 +356,6 @@ class LinearReadout(OpSpec):
 
 class Conv1d(OpSpec):
     name = "conv1d"
-    ref = "F.conv1d(input, weight, bias, stride, padding, dilation, groups)"
-    diff = ["input", "weight", "bias"]
-    constrained = ["input"]
     constraints = BINARY
 
     def configs(self) -> List[Dict[str, Any]]:
@@ -421,8 +402,6 @@ def _norm_args(ctx: Ctx, cfg: Dict[str, Any], with_bias: bool) -> Any:
 
 class LayerNorm(OpSpec):
     name = "layer_norm"
-    ref = "F.layer_norm(input, normalized_shape, weight, bias, eps)"
-    diff = ["input", "weight", "bias"]
     k_is_one = True
 
     def configs(self) -> List[Dict[str, Any]]:
@@ -441,8 +420,6 @@ class LayerNorm(OpSpec):
 
 class RmsNorm(OpSpec):
     name = "rms_norm"
-    ref = "F.rms_norm(input, normalized_shape, weight, eps)"
-    diff = ["input", "weight"]
     k_is_one = True
 
     def configs(self) -> List[Dict[str, Any]]:
@@ -457,9 +434,6 @@ class RmsNorm(OpSpec):
 
 class Add(OpSpec):
     name = "add"
-    ref = "torch.add(input, other)"
-    diff = ["input", "other"]
-    constrained = ["input", "other"]
     constraints = TERNARY
     out_param = "out"
 
@@ -514,8 +488,6 @@ class Add(OpSpec):
 
 class Embedding(OpSpec):
     name = "embedding"
-    ref = "F.embedding(input, weight, padding_idx, max_norm, norm_type)"
-    diff = ["weight"]
     k_is_one = True
 
     def configs(self) -> List[Dict[str, Any]]:
@@ -544,9 +516,6 @@ class Embedding(OpSpec):
 
 class Sdpa(OpSpec):
     name = "scaled_dot_product_attention"
-    ref = "F.scaled_dot_product_attention(query, key, value, attn_mask=attn_mask, dropout_p=dropout_p, is_causal=is_causal, scale=mult / value.shape[-1])"
-    diff = ["query", "key", "value"]
-    constrained = ["query", "key", "value"]
     fixed_constraint = True
 
     def configs(self) -> List[Dict[str, Any]]:
@@ -572,9 +541,6 @@ class Sdpa(OpSpec):
 
 class CrossEntropy(OpSpec):
     name = "cross_entropy"
-    ref = "F.cross_entropy(input * mult, target, ignore_index=ignore_index, reduction=reduction)"
-    ref_grad = 'F.cross_entropy(input * mult, target, ignore_index=ignore_index, reduction="sum")'
-    diff = ["input"]
     k_is_one = True
 
     def configs(self) -> List[Dict[str, Any]]:
@@ -618,9 +584,6 @@ class CrossEntropy(OpSpec):
 
 class MseLoss(OpSpec):
     name = "mse_loss"
-    ref = "F.mse_loss(input, target, reduction=reduction)"
-    ref_grad = 'F.mse_loss(input, target, reduction="sum")'
-    diff = ["input", "target"]
     k_is_one = True
 
     def configs(self) -> List[Dict[str, Any]]:
